@@ -343,7 +343,7 @@ func c14Families(tier string) []engine.Family {
 			if res.Err != nil {
 				return "", "", "", res.Err.Error()
 			}
-			fp := model.Fingerprint(u, model.FPOpts{Skip: skip})
+			fp := model.Fingerprint(u, model.FPOpts{Skip: skip, DepthsOnly: true})
 			return out, fp, model.Fingerprint(u, model.FPOpts{Skip: map[string]bool{}}), ""
 		}}
 	fams = append(fams, engine.Family{Name: "abandon-reset", Body: func(x *engine.Exec) {
